@@ -832,8 +832,21 @@ func (w *world) judgeStuck() {
 					end = t.bornAt
 				}
 			}
+			// A sibling t can make the receive loop of s lose the epoch race only if t's failure was accounted (the
+			// connection's epoch advanced) AFTER s's loop had read the epoch, i.e. after s was born. The epoch advances
+			// while t's own receive loop re-creates t, before t's replacement exists: a sibling whose replacement was
+			// born before s was born is over and done with - s started with the epoch it left behind.
 			for _, t := range c.streams {
-				if t.fwd != s.fwd && t.dead != nil && t.diedAt <= end {
+				if t.fwd == s.fwd || t.dead == nil || t.diedAt > end {
+					continue
+				}
+				replaced := time.Duration(1<<62 - 1)
+				for _, u := range c.streams {
+					if u != t && u.fwd == t.fwd && u.bornAt >= t.diedAt && u.bornAt < replaced {
+						replaced = u.bornAt
+					}
+				}
+				if replaced >= s.bornAt {
 					alone[s.uid] = false
 				}
 			}
